@@ -70,6 +70,8 @@ type CBChain struct {
 	Done []*frame
 	// Script maps a callback address that cannot carry a script (GMP uses the packet sender) to a script
 	Script map[string]string
+	// AsyncMW is the v2 callbacks middleware around the asynchronously acknowledging stub application (port AsyncPort)
+	AsyncMW *ibccallbacksv2.IBCMiddleware
 }
 
 var cbWatch = []string{"ibc", "transfer", "gmp", "bank", "icacontroller", "icahost", "upgrade"}
@@ -376,6 +378,9 @@ func (c *CBChain) wire(maxGas uint64) {
 		t2 = ibccallbacksv2.NewIBCMiddleware(transferv2.NewIBCModule(app.TransferKeeper), ibck.ChannelKeeperV2, app.MockContractKeeper, ibck.ChannelKeeperV2, maxGas)
 		g2 = ibccallbacksv2.NewIBCMiddleware(gmp.NewIBCModule(app.GMPKeeper), ibck.ChannelKeeperV2, app.MockContractKeeper, ibck.ChannelKeeperV2, maxGas)
 	}
+	// a stub application that acknowledges asynchronously, under the real middleware (public constructor)
+	c.AsyncMW = ibccallbacksv2.NewIBCMiddleware(asyncApp{}, ibck.ChannelKeeperV2, app.MockContractKeeper, ibck.ChannelKeeperV2, maxGas)
+	nr2.AddRoute(AsyncPort, &v2tap{inner: c.AsyncMW, c: c})
 	nr2.AddRoute(transfertypes.PortID, &v2tap{inner: t2, c: c})
 	nr2.AddRoute(gmptypes.PortID, &v2tap{inner: g2, c: c})
 	ibck.ChannelKeeperV2.Router = nr2
@@ -459,6 +464,40 @@ func (w *v1tap) UnmarshalPacketData(ctx sdk.Context, portID, channelID string, b
 		return u.UnmarshalPacketData(ctx, portID, channelID, bz)
 	}
 	return nil, "", errors.New("underlying module does not unmarshal packet data")
+}
+
+// AsyncPort is the port of the asynchronously acknowledging stub application.
+const AsyncPort = "c40async"
+
+// asyncApp accepts every packet and defers the acknowledgement; its packet data is a JSON object read like a memo.
+type asyncApp struct{}
+
+type asyncData map[string]any
+
+func (d asyncData) GetCustomPacketData(key string) any { return d[key] }
+
+func (asyncApp) OnSendPacket(sdk.Context, string, string, uint64, channeltypesv2.Payload, sdk.AccAddress) error {
+	return nil
+}
+
+func (asyncApp) OnRecvPacket(sdk.Context, string, string, uint64, channeltypesv2.Payload, sdk.AccAddress) channeltypesv2.RecvPacketResult {
+	return channeltypesv2.RecvPacketResult{Status: channeltypesv2.PacketStatus_Async}
+}
+
+func (asyncApp) OnTimeoutPacket(sdk.Context, string, string, uint64, channeltypesv2.Payload, sdk.AccAddress) error {
+	return nil
+}
+
+func (asyncApp) OnAcknowledgementPacket(sdk.Context, string, string, uint64, []byte, channeltypesv2.Payload, sdk.AccAddress) error {
+	return nil
+}
+
+func (asyncApp) UnmarshalPacketData(payload channeltypesv2.Payload) (any, error) {
+	d := asyncData{}
+	if err := json.Unmarshal(payload.Value, &d); err != nil {
+		return nil, err
+	}
+	return d, nil
 }
 
 type v2tap struct {
